@@ -128,6 +128,7 @@ def handle (line : String) : String :=
       let b : Base := ⟨cs, if term.startsWith "eof" then .eof else .err, term.endsWith "+"⟩
       ";".intercalate (runWrap (acts.splitOn ",") st b)
     | _, _ => "bad-op"
+  | "oracle" :: _ => "ok"       -- implementation-side oracle only (the harness answers ok / bad:…)
   | "conn" :: toks =>
     let r : Option String := do
       let b (k : String) : Option Bool := (kv toks k).map (· = "1")
